@@ -134,6 +134,15 @@ pub static mut LAST_SETGID: (u32, u32) = (0, 0);
 pub static mut LAST_SETPGID: (u32, i32, i32) = (0, 0, 0);
 pub unsafe fn setuid(uid: libc::uid_t) -> libc::c_int { LAST_SETUID = (LAST_SETUID.0 + 1, uid); if kani::any() { 0 } else { fail() } }
 pub unsafe fn setgid(gid: libc::gid_t) -> libc::c_int { LAST_SETGID = (LAST_SETGID.0 + 1, gid); if kani::any() { 0 } else { fail() } }
+// the other identity-changing calls: a wrapper that uses one of them instead of setuid/setgid changes only part of the identity
+// (e.g. seteuid leaves the real uid): recorded so that the harness can demand that none is used
+pub static mut OTHER_ID_CALLS: u32 = 0;
+pub unsafe fn seteuid(_uid: libc::uid_t) -> libc::c_int { OTHER_ID_CALLS += 1; if kani::any() { 0 } else { fail() } }
+pub unsafe fn setegid(_gid: libc::gid_t) -> libc::c_int { OTHER_ID_CALLS += 1; if kani::any() { 0 } else { fail() } }
+pub unsafe fn setreuid(_r: libc::uid_t, _e: libc::uid_t) -> libc::c_int { OTHER_ID_CALLS += 1; if kani::any() { 0 } else { fail() } }
+pub unsafe fn setregid(_r: libc::gid_t, _e: libc::gid_t) -> libc::c_int { OTHER_ID_CALLS += 1; if kani::any() { 0 } else { fail() } }
+pub unsafe fn setresuid(_r: libc::uid_t, _e: libc::uid_t, _s: libc::uid_t) -> libc::c_int { OTHER_ID_CALLS += 1; if kani::any() { 0 } else { fail() } }
+pub unsafe fn setresgid(_r: libc::gid_t, _e: libc::gid_t, _s: libc::gid_t) -> libc::c_int { OTHER_ID_CALLS += 1; if kani::any() { 0 } else { fail() } }
 pub unsafe fn setpgid(pid: libc::pid_t, pgid: libc::pid_t) -> libc::c_int { LAST_SETPGID = (LAST_SETPGID.0 + 1, pid, pgid); if kani::any() { 0 } else { fail() } }
 
 pub static mut CHDIR_CALLS: u32 = 0;
@@ -165,7 +174,11 @@ pub unsafe fn pthread_sigmask(how: libc::c_int, set: *const libc::sigset_t, olds
 pub unsafe fn signal(signum: libc::c_int, handler: libc::sighandler_t) -> libc::sighandler_t {
     if kani::any() { ERRNO = libc::EINVAL; return libc::SIG_ERR; }
     if signum == libc::SIGPIPE { SIGPIPE_DEFAULT = handler == libc::SIG_DFL; }
-    libc::SIG_IGN // previous disposition (Rust runtime ignores SIGPIPE)
+    // the previous disposition: whatever the embedding program set up (the Rust runtime ignores SIGPIPE, a C host or a test
+    // harness may have it at the default or on a handler); never SIG_ERR on this path
+    let prev: libc::sighandler_t = kani::any();
+    kani::assume(prev != libc::SIG_ERR);
+    prev
 }
 
 // ------------------------------------------------------------------ poll
